@@ -27,9 +27,12 @@ SchemaName(t, variant) ==
 \*   s = [t |-> <<maj, min, pat>>, variant |-> "os" | "desktop", legacy |-> BOOLEAN, db2 |-> BOOLEAN]
 \* kind: "ok" (schema must equal .schema), "throw" (exception class must equal .ex),
 \*       "loose" (cross-layout: any rejection, or acceptance with exactly .schema - never another one)
+\*   (legacyE / db2E: the file of that layout is present but empty - it still counts as that layout being present;
+\*    alone, it is not a library of any version: loading must fail, with whichever exception)
 Expected(s) ==
     IF ~s.legacy /\ ~s.db2 THEN [kind |-> "throw", ex |-> "database_not_found", schema |-> ""]
     ELSE IF s.legacy /\ s.db2 THEN [kind |-> "throw", ex |-> "database_not_found", schema |-> ""]
+    ELSE IF (s.legacy /\ s.legacyE) \/ (s.db2 /\ s.db2E) THEN [kind |-> "throwany", ex |-> "", schema |-> ""]
     ELSE IF s.legacy THEN
         IF s.t \in Supported1 THEN [kind |-> "ok", ex |-> "", schema |-> SchemaName(s.t, s.variant)]
         ELSE IF s.t \in Supported2 THEN [kind |-> "loose", ex |-> "", schema |-> SchemaName(s.t, s.variant)]
@@ -44,6 +47,7 @@ ResultOK(s, out, ex, loaded) ==
     LET e == Expected(s) IN
     CASE e.kind = "ok" -> out = "ok" /\ loaded = e.schema
       [] e.kind = "throw" -> out = "throw" /\ ex = e.ex
+      [] e.kind = "throwany" -> out = "throw"
       [] OTHER -> (out = "throw") \/ (out = "ok" /\ loaded = e.schema)
 
 \* Properties of the table itself (checked by TLC on the model): no two supported (triple, variant)
